@@ -39,7 +39,7 @@ Definition check_c06 (c : c06_case) : list string :=
    filesystems, archive/tar's Writer driven as writeTar drives it for raw
    headers) and reads a stream back with archive/tar's Reader.  The byte model
    (Model/TarBytes.v) must produce the same bytes and read the same members. *)
-From Apko Require Export Model.TarBytes.
+From Apko Require Export Model.TarBytes Spec.TarBytesSpec.
 
 (* byte strings are printed as runs: hexadecimal text or a number of NULs *)
 Inductive seg := SX (hex : string) | SZ (n : N).
@@ -99,4 +99,18 @@ Definition check_c06b (c : c06b_case) : list string :=
   | Some o => tag_if (negb (res_opt_eqb beqb w (option_map segs o))) "mismatch:tar-bytes"
   | None => []
   end ++
-  tag_if (negb (res_opt_eqb (list_eqb member_eqb) (read_archive stream) (b_read c))) "mismatch:tar-read".
+  tag_if (negb (res_opt_eqb (list_eqb member_eqb) (read_archive stream) (b_read c))) "mismatch:tar-read" ++
+  (* the validator of c06_bytes_roundtrip on what the REAL writer and reader did:
+     members inside the envelope must have been written, and archive/tar's Reader
+     must have returned exactly their views *)
+  match b_written c, b_stream c with
+  | Some o, None =>
+      if forallb member_okb (b_members c) then
+        match o, b_read c with
+        | Some _, Some ms => tag_if (negb (list_eqb member_eqb ms (map read_view (b_members c)))) "viol:tar-roundtrip"
+        | Some _, None => ["viol:tar-roundtrip/unreadable"]
+        | None, _ => ["viol:tar-roundtrip/refused"]
+        end
+      else []
+  | _, _ => []
+  end.
